@@ -193,16 +193,23 @@ def observe(doc, klass, system, allowed, nochecks, want_rt):
         obs["copy_exc"] = "%s: %s" % (type(e).__name__, str(e)[:120])
     if not want_rt:
         return obs
-    # print, then read the printed text
+    # print under every requested option (with_param, with_name), then read the printed text
     printers = []
-    if system:
-        printers.append(("sys", True, lambda o: o.string()))
-    else:
-        printers.append(("wp", True, lambda o: o.string(with_param=True)))
-        printers.append(("str", True, lambda o: str(o)))
-        printers.append(("s", False, lambda o: o.string()))
-    for kind, withparam, pr in printers:
-        rt = {"kind": kind, "withparam": withparam, "raised": False, "lines": [], "eq": False, "text": ""}
+    for wp, wn, rtno in want_rt:
+        bits = "%d%d" % (wp, wn)
+        if system:
+            printers.append(("y" + bits, wp, wn, rtno, lambda o, wp=wp, wn=wn: o.string(with_param=wp, with_name=wn)))
+            if wp and wn:
+                printers.append(("ydef", wp, wn, rtno, lambda o: o.string()))
+        else:
+            printers.append(("s" + bits, wp, wn, rtno, lambda o, wp=wp, wn=wn: o.string(with_param=wp, with_name=wn)))
+            if wp and wn:
+                printers.append(("str", wp, wn, rtno, lambda o: str(o)))
+            if not wp and not wn:
+                printers.append(("sdef", wp, wn, rtno, lambda o: o.string()))
+    for kind, wp, wn, rtno, pr in printers:
+        rtno = bool(nochecks or rtno)
+        rt = {"kind": kind, "wp": bool(wp), "wn": bool(wn), "raised": False, "lines": [], "eq": False, "text": ""}
         try:
             txt = pr(obj)
             rt["text"] = txt
@@ -210,9 +217,9 @@ def observe(doc, klass, system, allowed, nochecks, want_rt):
             while pdoc and pdoc[-1] == "":
                 pdoc.pop()
             try:
-                obj2, rxns2 = read(pdoc, klass, system, allowed, nochecks)
+                obj2, rxns2 = read(pdoc, klass, system, allowed, rtno)
             except Exception:
-                if nochecks:
+                if rtno:
                     raise
                 # as above: tell the reading of the printed text from the constructor's checks
                 obj2, rxns2 = read(pdoc, klass, system, allowed, True)
@@ -428,7 +435,8 @@ def line_facts(events):
             sums[kk] = sums.get(kk, 0) + Fraction(c["ip"] * 10 ** c["fd"] + c["fp"], 10 ** c["fd"])
     rt_bare = sorted(set(k[1] for k, v in sums.items() if v == 1))
     rt_closed = any(k[2].endswith(")") for k, v in sums.items() if v == 1)
-    return {"fault": fault, "printable": not fault and not inact and not named, "rt_bareparen": rt_bare, "rt_bareparen_closed": rt_closed,
+    opts = [(wp, wn, True) for wp in (True, False) for wn in (True, False) if not (wn and named)]
+    return {"fault": fault, "printable": not fault and not inact, "print_opts": opts, "rt_bareparen": rt_bare, "rt_bareparen_closed": rt_closed,
             "bareparen": sorted(set(e["side"] for e in bare)),
             "bareparen_closed": any(e["key"]["t"].endswith(")") for e in bare),
             "unknown_bareparen": any(e["k"] == "unknown" for e in bare),
